@@ -288,7 +288,7 @@ class H(Harness):
     ID = 'C10'
     TIE_IMPORT = 'From EpyV Require Import Model.Kernel Model.Lifecycle Tie.C10.'
     CHECK_FN = 'EpyV.Tie.C10.check_case'
-    QUICK_N = 150
+    QUICK_N = 300
     THOROUGH_N = 1500
     CASE_TIMEOUT = 40
     ALLOWED_AXIOMS = set()
